@@ -325,6 +325,9 @@ func (pf Profile) Gen(t *rapid.T) Scenario {
 	if pf.POverrun > 0 {
 		sc.Timeout5s = true
 	}
+	if pct(t, 20, "cancelStartCtx") {
+		sc.CancelStartUs = pick(t, []int{-1, 100, 1000, 5000}, "cancelStartUs")
+	}
 	if pct(t, pf.PLongHold, "longHold") {
 		// hold the first action of the first sequence of the first block that is under a continuous check
 	search:
